@@ -117,6 +117,14 @@ CLAIMED = {
             "Errors without a position are not judged (the property is conditional); load-file's own row offset is outside "
             "the property.",
             "§8 C17"),
+    "C20": ("GenC20.tla states the binder's contract as a function (invoke iff count within declared/derived bounds and every "
+            "argument assignable; result conventions; panic wrapping; names); TLC enumerates shapes x bounds x argument lists x "
+            "behaviours x entry points x import paths; 144 generated Go functions (in a dotted and a dot-less module) record "
+            "whether they were entered and with what, and the real binder is exercised through lisp.EVAL",
+            "Exhaustive over the shape/bounds/argument space described (45k cases quick, 190k thorough).",
+            "Parameter typings limited to int / MalType / error-interface; registration with illegal declarations (bounds on a "
+            "non-variadic function) is not exercised (the binder panics by design at registration).",
+            "§8 C20"),
 }
 
 NOT_YET = "check not built yet in this round (planned in DESIGN.md §8; the specification module exists or is in progress)"
